@@ -287,6 +287,85 @@ def op_meta_not_object(rng, data, layout):
     return 'meta_json_special', _with_content(data, s, new)
 
 
+def op_meta_bad_json_mixed_newlines(rng, data, layout):
+    """Broken JSON in a metadata section whose line breaks disagree with its
+    declared line_endings (an error located by line / column has to be
+    reported against one of the two line structures)."""
+    cs = [s for s in _content_sections(layout) if s['kind'] == 'meta']
+    if not cs:
+        return None
+    s = rng.choice(cs)
+    codec = s.get('codec') or 'ascii'
+    declared = rng.choice(['dos', 'unix'])
+    inner = '\n' if declared == 'dos' else '\r\n'
+    final = '\r\n' if declared == 'dos' else '\n'
+    n = rng.randint(1, 12)
+    body = '{' + inner + ''.join('    "k%d": %d,%s' % (i, i, inner)
+                                 for i in range(n))
+    body += rng.choice(['}', '    "x": }', ']', '    "y" 1' + inner + '}',
+                        '    "z": tru' + inner + '}']) + final
+    try:
+        new = body.encode(codec)
+    except UnicodeError:
+        return None
+    new = new[len(''.encode(codec)):]
+    h = data[s['hoff']:s['hoff'] + s['hlen']]
+    eol = b'\r\n' if h.endswith(b'\r\n') else b'\n'
+    core = h[:-len(eol)]
+    if b'line_endings=' in core:
+        core = re.sub(br'line_endings=[^,\r\n]+',
+                      b'line_endings=' + declared.encode(), core, count=1)
+    else:
+        core += b', line_endings=' + declared.encode()
+    core = _set_length(core, len(new))
+    return ('meta_bad_json_mixed_newlines',
+            data[:s['hoff']] + core + eol + new +
+            data[s['coff'] + s['clen']:])
+
+
+_ATTR_NAMES = []
+
+
+def attribute_like_keys():
+    """Grammatical option keys that are also names of attributes / methods /
+    slots of the object-model classes (collected by reflection, with a
+    static fallback): as header options they are just unknown options."""
+    if _ATTR_NAMES:
+        return _ATTR_NAMES
+    names = set(['meta', 'files', 'diff', 'preamble', 'meta_section',
+                 'diff_section', 'preamble_section', 'changes', 'options',
+                 'subsections', 'section_id', 'content', 'add_file',
+                 'add_change', 'to_bytes', 'generate_stats', 'self',
+                 'parent_section', 'kwargs', 'attrs'])
+    try:
+        from pydiffx.dom import objects
+        for cls in vars(objects).values():
+            if isinstance(cls, type):
+                names.update(dir(cls))
+                for k in cls.__mro__:
+                    sl = k.__dict__.get('__slots__', ())
+                    names.update([sl] if isinstance(sl, str) else sl)
+    except Exception:
+        pass
+    _ATTR_NAMES.extend(sorted(n for n in names
+                              if re.match(r'^[A-Za-z][A-Za-z0-9_-]*$', n)))
+    return _ATTR_NAMES
+
+
+def op_option_named_like_attribute(rng, data, layout):
+    if not layout:
+        return None
+    s = rng.choice(list(layout))
+    h = data[s['hoff']:s['hoff'] + s['hlen']]
+    eol = b'\r\n' if h.endswith(b'\r\n') else b'\n'
+    core = h[:-len(eol)]
+    key = rng.choice(attribute_like_keys()).encode()
+    val = rng.choice([b'x', b'4', b'json', b'utf-8', b'0', b'text/plain'])
+    core += (b', ' if b'=' in core else b' ') + key + b'=' + val
+    return ('option_named_like_attribute',
+            data[:s['hoff']] + core + eol + data[s['hoff'] + s['hlen']:])
+
+
 def op_byte_edits(rng, data, layout):
     b = bytearray(data)
     for _ in range(rng.randint(1, 3)):
@@ -336,7 +415,9 @@ OPERATORS = [
     (op_all_crlf_then_one_lf, 3), (op_lines, 6), (op_sections, 8),
     (op_content_undecodable, 8), (op_content_odd_bytes, 4),
     (op_content_empty, 3), (op_content_no_newline, 2),
-    (op_meta_not_object, 5), (op_byte_edits, 12), (op_header_bytes, 5),
+    (op_meta_not_object, 5), (op_meta_bad_json_mixed_newlines, 3),
+    (op_option_named_like_attribute, 6),
+    (op_byte_edits, 12), (op_header_bytes, 5),
     (op_prepend, 2), (op_random_bytes, 5),
 ]
 _W = [w for _, w in OPERATORS]
